@@ -29,7 +29,16 @@ struct Pair<'a> {
     report: &'a Report,
     samples: &'a Samples,
     alphabet: &'a [char],
+    /// class sweep: only strings that contain a quote are of interest - the last level of a walk whose text has no
+    /// quote yet goes over the quote characters only
+    need_quote: bool,
     text: String,
+    /// fixed mode: the method state (read through the hook) at each level of the walk. A backspace that does not lead back
+    /// to it (a rewriting rule, a fused two-part sign, a waiting sign) means the contexts no longer hold `text`: they are
+    /// brought back by re-typing it and that backspace result is not judged against `text`.
+    aux_stack: Vec<Option<crate::fxgraph::FxState>>,
+    /// fixed mode: the characters of the alphabet whose key has no value in the layout (read from the layout file)
+    no_value: Vec<char>,
     compared: u64,
     curled: u64,
     events: u64,
@@ -51,7 +60,14 @@ impl<'a> Pair<'a> {
                     split_ref(aux, true)
                 };
                 let raw: Option<&str> = if phonetic { Some(self.text.as_str()) } else { None };
-                let items2: Vec<String> = items
+                // Degenerate corner (phonetic): the transliteration of the text is the text itself (a word of characters
+                // Avro leaves alone, e.g. a back slash). With the option off the transliteration and the raw typed text are
+                // one candidate (no text occurs twice); with it on the transliteration is curled, so the raw typed text -
+                // offered when the English option is on - is a candidate of its own again, in its usual last place.
+                let coincide = phonetic && !word.is_empty() && format!("{}{}{}", lead, self.avro.tr(&word), trail) == self.text;
+                let curled_tr = if coincide { format!("{}{}{}", curl_open(&lead), self.avro.tr(&word), curl_close(&trail)) } else { String::new() };
+                let mut append_raw = false;
+                let mut items2: Vec<String> = items
                     .iter()
                     .enumerate()
                     .map(|(i, c)| {
@@ -61,6 +77,10 @@ impl<'a> Pair<'a> {
                             // fixed: the raw key text is the last candidate when English is on and it differs from the composition
                             self.on.opts.english && !self.on.opts.ansi && i + 1 == items.len() && *c == self.text && c != aux
                         };
+                        if is_raw && coincide && curled_tr != self.text {
+                            append_raw = self.on.opts.english && !self.on.opts.ansi;
+                            return curled_tr.clone();
+                        }
                         if word.is_empty() || is_raw {
                             return c.clone();
                         }
@@ -72,6 +92,9 @@ impl<'a> Pair<'a> {
                         }
                     })
                     .collect();
+                if append_raw {
+                    items2.push(self.text.clone());
+                }
                 Rend::Full { aux: aux.clone(), items: items2, sel: *sel, pre: vec![] }
             }
             other => other.without_pre(),
@@ -124,6 +147,13 @@ impl<'a> Pair<'a> {
             _ => None,
         }
     }
+    fn state(&self) -> Option<crate::fxgraph::FxState> {
+        if self.on.opts.is_phonetic() {
+            None
+        } else {
+            Some(crate::fxgraph::read_state(&self.off))
+        }
+    }
     fn resync(&mut self) {
         let _ = self.on.apply(&Ev::Finish);
         let _ = self.off.apply(&Ev::Finish);
@@ -136,17 +166,30 @@ impl<'a> Pair<'a> {
         if depth == 0 {
             return;
         }
+        let quotes_only = self.need_quote && depth == 1 && !self.text.contains(['\'', '"']);
         for i in 0..self.alphabet.len() {
             let c = self.alphabet[i];
+            if quotes_only && c != '\'' && c != '"' {
+                continue;
+            }
             match self.both(&Ev::ch(c)) {
                 Some((x, y)) => {
+                    if self.no_value.contains(&c) {
+                        continue; // fixed mode: a key the layout has no value for - nothing was typed
+                    }
                     self.text.push(c);
                     self.compare(&x, &y, false);
+                    let st = self.state();
+                    self.aux_stack.push(st);
                     self.rec(depth - 1);
+                    self.aux_stack.pop();
                     match self.both(&Ev::Bs) {
                         Some((xb, yb)) => {
                             self.text.pop();
-                            if !self.text.is_empty() {
+                            let now = self.state();
+                            if !self.on.opts.is_phonetic() && self.aux_stack.last().map(|a| *a != now).unwrap_or(false) {
+                                self.resync();
+                            } else if !self.text.is_empty() {
                                 self.compare(&xb, &yb, true);
                             }
                         }
@@ -162,10 +205,17 @@ impl<'a> Pair<'a> {
     }
     fn type_str(&mut self, s: &str) -> bool {
         for c in s.chars() {
-            if self.both(&Ev::ch(c)).is_none() {
-                return false;
+            match self.both(&Ev::ch(c)) {
+                None => return false,
+                Some(_) => {
+                    if self.no_value.contains(&c) {
+                        continue;
+                    }
+                    self.text.push(c);
+                    let st = self.state();
+                    self.aux_stack.push(st);
+                }
             }
-            self.text.push(c);
         }
         true
     }
@@ -219,6 +269,17 @@ pub fn run(report: &Report, thorough: bool) -> Evidence {
         o.fsugg = false;
         cfgs.push(o);
     }
+    // "all other options free": the remaining fixed options (old reph, old vowel-sign order, number pad; automatic
+    // vowel forming and chandrabindu off) - together in the quick tier, each alone as well in the thorough tier
+    for bits in if thorough { vec![7u32, 1, 2, 4] } else { vec![7u32] } {
+        let mut o = Opts::fixed(&probhat(), &real_db(), "");
+        o.fsugg = true;
+        o.english = true;
+        o.reph = bits & 1 != 0;
+        o.karorder = bits & 2 != 0;
+        o.numpad = bits & 4 != 0;
+        cfgs.push(o);
+    }
 
     // A learned-selection store (a non-first candidate for each short word of the alphabet), so
     // that the preselection clause is exercised with indices other than 0.
@@ -244,6 +305,7 @@ pub fn run(report: &Report, thorough: bool) -> Evidence {
         }
         serde_json::Value::Object(m).to_string()
     };
+    let probhat_map = crate::props::c12::LayoutMap::load(&probhat());
     let run_part = |name: &str, alphabet: &[char], prefixes: &[String], depth: usize| -> (u64, u64) {
         let before = (compared.load(Ordering::Relaxed), events.load(Ordering::Relaxed));
         // every prefix is walked twice: without and with the learned store (odd job indices)
@@ -279,7 +341,7 @@ pub fn run(report: &Report, thorough: bool) -> Evidence {
                 let mut off = Ctx::new(&o_off).expect("ctx");
                 on.with_pre = false;
                 off.with_pre = false;
-                let mut p = Pair { on, off, avro: &avro, report, samples: &samples, alphabet, text: String::new(), compared: 0, curled: 0, events: 0 };
+                let mut p = Pair { on, off, avro: &avro, report, samples: &samples, alphabet, need_quote: name == "S3", text: String::new(), aux_stack: vec![], no_value: if o.is_phonetic() { vec![] } else { alphabet.iter().copied().filter(|c| probhat_map.value(*c, false).is_empty()).collect() }, compared: 0, curled: 0, events: 0 };
                 if p.type_str(&prefixes[idx / cfgs.len()]) {
                     p.rec(depth);
                 }
@@ -301,6 +363,21 @@ pub fn run(report: &Report, thorough: bool) -> Evidence {
         let (c0, e0) = run_part("S1a", &alpha, &firsts, 2);
         let (c, e) = run_part("S1", &alpha, &prefixes, n - 2);
         parts.insert("S1_all_strings".into(), json!({"alphabet": "as'\"():`.", "max_len": n, "configurations": cfgs.len(), "pairs_compared": c + c0, "key_events": e + e0}));
+    }
+    // S3: class sweep - every string of <= 3 characters that contains a quote, over every ASCII punctuation character
+    // and one letter / capital / digit per class (quick, 6 configurations) or over all 94 typeable characters (thorough,
+    // all configurations): a rule that treats one character or one kind of word differently shows here
+    if crate::par::part_enabled("S3") {
+        let alpha: Vec<char> = if thorough {
+            (33u8..127).map(|b| b as char).collect()
+        } else {
+            (33u8..127).map(|b| b as char).filter(|c| c.is_ascii_punctuation() || "akD51".contains(*c)).collect()
+        };
+        let firsts: Vec<String> = alpha.iter().map(|c| c.to_string()).collect();
+        let saved = cfgs.clone();
+        let _ = &saved;
+        let (c, e) = run_part("S3", &alpha, &firsts, 2);
+        parts.insert("S3_class_sweep".into(), json!({"alphabet_size": alpha.len(), "max_len": 3, "only_strings_containing_a_quote": true, "pairs_compared": c, "key_events": e}));
     }
     // S2: words with every 0..3 leading x 0..3 trailing string over {' " (}
     if crate::par::part_enabled("S2") {
